@@ -26,10 +26,23 @@ Oracle  : after every step every live object is observationally identical (exact
           must equal the fresh build at once.  Every live object, always: aligned_source() == apply(source
           points) and alignment_error() == ||target - apply(source points)|| (exact), source / target hold
           exactly the coordinates of the model.
+Refused : every call the tree refuses is a self-loop letter on the same live object: the four wrong-sized
+          set_target calls, apply(points of the other dimensionality), apply(points outside the source domain)
+          for piecewise-affine maps, and constructing the same class from the object's own source and a
+          wrong-sized target / from 3-D point sets for the 2-D-only classes.  Oracle: it raises (ValueError where
+          the interface documents it, TriangleContainmentError outside the domain), the complete observation of
+          the receiver and of every argument is exactly as before, an immediate retry is refused with the same
+          exception type, message and mask, every live object still satisfies the normal oracle - and every VALID
+          operation of every history is itself preceded by one refused call on its receiver (kinds in rotation),
+          so that each later valid step is checked on an object that has seen refused calls.
 GPA     : roots of kind "G": GeneralizedProcrustesAnalysis(sources) without a fixed target - every
           transforms[i] is exactly AlignmentSimilarity(sources[i], gpa.target, allow_mirror=...) and reports
           gpa.target as its target; the inputs are unchanged; each returned transform, retargeted once
-          more, still equals the fresh build (the option survived the iterations).
+          more, still equals the fresh build (the option survived the iterations).  Shape families: three
+          converging ones and 'noconv' - unrelated random shapes, the first set (in a fixed seeded order) on which
+          the iteration budget runs out (converged is False): same oracle.  GPA refusals: a single shape, shapes
+          of different sizes / dimensionalities raise, leave the inputs unchanged, and the same PointCloud
+          objects are then aligned by the valid runs.
 """
 import hashlib
 
@@ -41,7 +54,11 @@ from mc.observe import buffers, obs_diff, obs_key, observe
 
 MAX_OBJS = 3
 TARGETS = ("rot", "refl", "shear", "self", "int")
-BAD_KINDS = ("n+1", "n-1", "dims", "samesize")
+BAD_KINDS = ("n+1", "n-1", "dims", "samesize")  # set_target(wrong-sized target)
+# further calls the unchanged tree refuses, made on (or from) the same live object between the valid operations
+CALL_KINDS = ("apply-dims", "apply-outside", "ctor-n+1", "ctor-dims", "ctor-3d")
+GPA_REFUSALS = ("single-shape", "mixed-n-points", "mixed-dims")
+NOCONV_CANDIDATES = 1500
 
 
 # ------------------------------------------------------------------------------------------------
@@ -155,6 +172,9 @@ class C08(Check):
                 for k in ks:
                     for variant in ("sim", "refl", "shift"):
                         out.append(("G", d, n, k, variant))
+        # unrelated shapes on which the iteration budget runs out (the give-up path of the iteration)
+        for d, n, k in ((2, 4, 3), (3, 5, 3)) if self.tier == "quick" else ((2, 4, 3), (3, 5, 3), (2, 5, 3)):
+            out.append(("G", d, n, k, "noconv"))
         return out
 
     # ------------------------------------------------------------------ payload (seeded, structure fixed)
@@ -199,6 +219,14 @@ class C08(Check):
         if (n * d) % od == 0:
             bad["samesize"] = 0.5 + 5 * rb.rand(n * d // od, od)
         pl = {"S": s, "trilist": trilist, "targets": targets, "bad": bad}
+        pl["xbad"] = {"apply-dims": 0.5 + 5 * rb.rand(5, od)}
+        if trilist is not None:
+            tri = s[trilist[:2]]
+            inside = tri.mean(axis=1)
+            pl["xbad"]["apply-outside"] = np.concatenate([inside[:1], [[100.0, 100.0]], inside[1:], [[-50.0, 3.0]]])
+        if d == 2 and name in ("ThinPlateSplines", "PythonPWA", "CachedPWA"):
+            p3 = generic_points(6, 3, seed, ("c08-3d", n))
+            pl["bad3d"] = (p3, np.array([[0, 1, 2], [1, 2, 3], [2, 3, 4], [3, 4, 5]]), p3 * 1.1 + 0.3)
         if name == "ThinPlateSplines":
             kind = "R2LogRRBF" if o["kernel"] == "R2LogRRBF" else "R2LogR2RBF"
             sv = _tps_system_singular_values(kind, s)
@@ -209,6 +237,8 @@ class C08(Check):
     def _gpa_payload(self, root):
         _, d, n, k, variant = root
         seed = self.seed
+        if variant == "noconv":
+            return self._gpa_noconv_payload(root)
         b = generic_points(n, d, seed, ("c08-gpa", n, d), min_area=MIN_AREA if d == 2 else None)
         c = b.mean(axis=0)
         shapes = []
@@ -228,6 +258,37 @@ class C08(Check):
         r = rs(seed, "c08-gpa-retarget", n, d)
         retarget = (b - c).dot(maps["refl"].T) + c + 0.15 * r.randn(n, d)
         return {"shapes": shapes, "retarget": retarget}
+
+    def _gpa_noconv_payload(self, root):
+        """Unrelated random shapes: candidates i = 0, 1, ... in a fixed seeded order; the first set on which the
+        iteration gives up (found by running it - this only selects an input)."""
+        from menpo.shape import PointCloud
+        from menpo.transform import GeneralizedProcrustesAnalysis
+
+        _, d, n, k, _variant = root
+        chosen, index = None, None
+        for i in range(NOCONV_CANDIDATES):
+            r = rs(self.seed, "c08-gpa-noconv", d, n, k, i)
+            shapes = [1.5 * r.randn(n, d) for _ in range(k)]
+            ok = True
+            for sh in shapes:  # non-degenerate: no two points of a shape closer than 0.3
+                diff = sh[:, None, :] - sh[None, :, :]
+                if (np.sqrt((diff ** 2).sum(-1)) + np.eye(n) * 9).min() < 0.3:
+                    ok = False
+            if not ok:
+                continue
+            if chosen is None:
+                chosen = shapes  # fall-back (vacuity() then reports that no run gave up)
+            g = GeneralizedProcrustesAnalysis([PointCloud(sh.copy()) for sh in shapes])
+            if not g.converged:
+                chosen, index = shapes, i
+                break
+        b = chosen[0]
+        c = b.mean(axis=0)
+        maps = _linear_maps(d, self.seed, ("gpa", n))
+        r = rs(self.seed, "c08-gpa-retarget", n, d)
+        retarget = (b - c).dot(maps["refl"].T) + c + 0.15 * r.randn(n, d)
+        return {"shapes": chosen, "retarget": retarget, "noconv_index": index}
 
     # ------------------------------------------------------------------ construction
     def _make_source(self, root, pl):
@@ -309,7 +370,16 @@ class C08(Check):
 
         pl = self._payload(root)
         if root[0] == "G":
-            return {"root": root, "kind": "G", "objs": [], "model": []}
+            d, n = root[1], root[2]
+            r = rs(self.seed, "c08-gpa-odd", d, n)
+            return {
+                "root": root,
+                "kind": "G",
+                "objs": [],
+                "model": [],
+                "sources": [PointCloud(sh.copy()) for sh in pl["shapes"]],
+                "odd": {"mixed-n-points": PointCloud(0.5 + 5 * r.rand(n - 1, d)), "mixed-dims": PointCloud(0.5 + 5 * r.rand(n, 5 - d))},
+            }
         src = self._make_source(root, pl)
         kernel = self._make_kernel(root, src)
         pool = {tn: PointCloud(pl["targets"][tn].copy()) for tn in ("rot", "refl", "shear", "int")}
@@ -319,6 +389,15 @@ class C08(Check):
         passed = [("source", src)] + [("target:" + k, v) for k, v in pool.items() if k != "self"] + [("wrong:" + k, v) for k, v in bad.items()]
         if kernel is not None:
             passed.append(("kernel.c", kernel.c))
+        xbad = {k: v.copy() for k, v in pl["xbad"].items()}
+        passed += [("argument:" + k, v) for k, v in xbad.items()]
+        bad3d = None
+        if "bad3d" in pl:
+            from menpo.shape import TriMesh
+
+            p3, tl3, t3 = pl["bad3d"]
+            bad3d = (TriMesh(p3.copy(), tl3.copy()) if dict(root[2]).get("source") == "TriMesh" else PointCloud(p3.copy()), PointCloud(t3.copy()))
+            passed += [("argument:3d-source", bad3d[0]), ("argument:3d-target", bad3d[1])]
         st = {
             "root": root,
             "kind": "A",
@@ -326,6 +405,9 @@ class C08(Check):
             "kernel": kernel,
             "pool": pool,
             "bad": bad,
+            "xbad": xbad,
+            "bad3d": bad3d,
+            "n_valid": 0,
             "passed": passed,
             "obs0": [(k, observe(v)) for k, v in passed],
             "objs": [al],
@@ -387,7 +469,7 @@ class C08(Check):
     # ------------------------------------------------------------------ alphabet of operations
     def ops(self, st, level):
         if st["kind"] == "G":
-            return [("gpa", False), ("gpa", True)]
+            return [("gpa-refuse", k) for k in GPA_REFUSALS] + [("gpa", False), ("gpa", True)]
         out = []
         n_obj = len(st["objs"])
         last = level >= 3  # the fourth operation of a thorough history is a set_target (the re-fit is what is compared)
@@ -399,16 +481,79 @@ class C08(Check):
             if n_obj < MAX_OBJS:
                 out.append(("copy", j))
                 out.append(("pinv", j))
-            for k in BAD_KINDS:
-                if k in st["bad"]:
-                    out.append(("bad", j, k))
+            for k in self._refusal_kinds(st):
+                out.append(("bad", j, k))
         return out
+
+    def _refusal_kinds(self, st, on_receiver_only=False):
+        out = [k for k in BAD_KINDS if k in st["bad"]] + ["apply-dims"]
+        if "apply-outside" in st["xbad"]:
+            out.append("apply-outside")
+        if not on_receiver_only:
+            out += ["ctor-n+1", "ctor-dims"]
+            if st["bad3d"] is not None:
+                out.append("ctor-3d")
+        return out
+
+    def _refusal(self, st, j, kind):
+        """(callable making the refused call, exception class it has to raise or None for 'any', who says so)."""
+        from menpo.transform.piecewiseaffine.base import TriangleContainmentError
+
+        al = st["objs"][j]
+        root = st["root"]
+        if kind in BAD_KINDS:
+            return (lambda: al.set_target(st["bad"][kind])), ValueError
+        if kind == "apply-dims":
+            return (lambda: al.apply(st["xbad"]["apply-dims"])), None
+        if kind == "apply-outside":
+            return (lambda: al.apply(st["xbad"]["apply-outside"])), TriangleContainmentError
+        if kind in ("ctor-n+1", "ctor-dims"):
+            tgt = st["bad"][kind[5:]]
+            return (lambda: self._construct(root, al.source, tgt, self._make_kernel(root, al.source))), ValueError
+        if kind == "ctor-3d":
+            src3, tgt3 = st["bad3d"]
+            return (lambda: self._construct(root, src3, tgt3, self._make_kernel(root, src3))), ValueError
+        raise ValueError(kind)
+
+    @staticmethod
+    def _raises(call):
+        try:
+            call()
+        except Exception as e:  # the refusal itself is what is observed here; its type is judged by the caller
+            return e
+        return None
+
+    @staticmethod
+    def _same_refusal(e1, e2):
+        if type(e1) is not type(e2) or str(e1) != str(e2):
+            return False
+        m1, m2 = getattr(e1, "points_outside_source_domain", None), getattr(e2, "points_outside_source_domain", None)
+        if (m1 is None) != (m2 is None):
+            return False
+        return m1 is None or np.array_equal(m1, m2)
+
+    def _refused_first(self, st, j, verify, where, op):
+        """one refused call on the receiver of the valid operation that follows (kinds in rotation over position in
+        the history, receiver and letter of the valid operation)."""
+        kinds = self._refusal_kinds(st, on_receiver_only=True)
+        code = TARGETS.index(op[2]) if op[0] == "set" else len(TARGETS) + (op[0] == "pinv")
+        kind = kinds[(3 * st["n_valid"] + j + code) % len(kinds)]
+        st["n_valid"] += 1
+        call, _exp = self._refusal(st, j, kind)
+        e = self._raises(call)
+        if verify:
+            self.note("refused-before-valid-op:%s" % kind)
+            if e is None:
+                return [Failure(where, "refused-call-raises", "the %s call made before this operation was accepted" % kind)]
+        return []
 
     # ------------------------------------------------------------------ step
     def apply(self, st, op, verify=True):
         kind = op[0]
         if kind == "gpa":
             return self._gpa(st, op[1]) if verify else []
+        if kind == "gpa-refuse":
+            return self._gpa_refuse(st, op[1]) if verify else []
         fails = self._apply(st, op, verify)
         if not verify:
             self._touch(st)
@@ -421,6 +566,8 @@ class C08(Check):
         j = op[1]
         al = st["objs"][j]
         fails = []
+        if kind in ("set", "copy", "pinv"):
+            fails.extend(self._refused_first(st, j, verify, {"set": "set_target:", "copy": "copy:", "pinv": "pseudoinverse:"}[kind] + letter, op))
         if kind == "set":
             tn = op[2]
             al.set_target(st["pool"][tn])
@@ -471,25 +618,34 @@ class C08(Check):
                 fails.extend(self._verify_all(st, "pseudoinverse:" + letter))
             return fails
         if kind == "bad":
-            exc = None
-            try:
-                al.set_target(st["bad"][op[2]])
-            except ValueError as e:
-                exc = e
-            except Exception as e:  # rejected, but not the way the interface promises
-                exc = e
-            if verify:
-                where = "set_target-wrong-%s:%s" % (op[2], letter)
-                if exc is None:
-                    fails.append(Failure(where, "wrong-size-rejected", "target of shape %s accepted by an alignment of %s points" % (st["bad"][op[2]].points.shape, st["src"].points.shape)))
-                    self.note("bad:%s:accepted" % op[2])
-                elif not isinstance(exc, ValueError):
-                    fails.append(Failure(where, "wrong-size-rejected", "expected ValueError, got %s: %s" % (type(exc).__name__, exc)))
-                    self.note("bad:%s:%s" % (op[2], type(exc).__name__))
-                else:
-                    self.note("bad:%s:ValueError" % op[2])
-                if not fails:
-                    fails.extend(self._verify_all(st, where, clause_prefix="after-rejection:"))
+            rk = op[2]
+            call, expected = self._refusal(st, j, rk)
+            if not verify:
+                self._raises(call)
+                self._raises(call)
+                self._raises(call)
+                return fails
+            where = ("set_target-wrong-%s:%s" if rk in BAD_KINDS else "refused-%s:%s") % (rk, letter)
+            raise_clause = "wrong-size-rejected" if (rk in BAD_KINDS or rk.startswith("ctor-n") or rk.startswith("ctor-d")) else "refused-call-raises"
+            before = self._full_obs(al)
+            e1 = self._raises(call)
+            if e1 is None:
+                self.note("bad:%s:accepted" % rk)
+                return [Failure(where, raise_clause, "the call was accepted (receiver %r of %s source points)" % (st["model"][j], st["src"].points.shape[0]))]
+            self.note("bad:%s:%s" % (rk, type(e1).__name__))
+            if expected is not None and not isinstance(e1, expected):
+                fails.append(Failure(where, raise_clause, "expected %s, got %s: %s" % (expected.__name__, type(e1).__name__, e1)))
+            e2 = self._raises(call)  # the immediate retry (nothing in between that could refresh a memo)
+            diff = obs_diff(before, self._full_obs(al))
+            if diff:
+                fails.append(Failure(where, "refused-call-leaves-receiver-unchanged", "receiver %r after the refused call: %s" % (st["model"][j], diff)))
+            if e2 is None or not self._same_refusal(e1, e2):
+                fails.append(Failure(where, "retry-refused-the-same-way", "first %s: %s / retry %s" % (type(e1).__name__, e1, "accepted" if e2 is None else "%s: %s" % (type(e2).__name__, e2))))
+            e3 = self._raises(call)  # and once more after the object has been queried
+            if e3 is None or not self._same_refusal(e1, e3):
+                fails.append(Failure(where, "retry-refused-the-same-way", "first %s: %s / after the queries %s" % (type(e1).__name__, e1, "accepted" if e3 is None else "%s: %s" % (type(e3).__name__, e3))))
+            if not fails:
+                fails.extend(self._verify_all(st, where, clause_prefix="after-rejection:"))
             return fails
         raise ValueError(op)
 
@@ -585,10 +741,12 @@ class C08(Check):
         root = st["root"]
         pl = self._payload(root)
         where = "gpa:%s(allow_mirror=%s)" % (root[4], allow_mirror)
-        sources = [PointCloud(s.copy()) for s in pl["shapes"]]
-        before = [observe(s) for s in sources]
+        sources = st["sources"]  # the same PointCloud objects for every run (and for the refused calls) of this root
+        before = [observe(PointCloud(s.copy())) for s in pl["shapes"]]
         g = GeneralizedProcrustesAnalysis(sources, allow_mirror=allow_mirror)
         fails = []
+        if root[4] == "noconv":
+            self.note("gpa-unrelated-shapes:%s" % ("gave-up" if not g.converged else "converged"))
         self.note("gpa:%s" % ("one-iteration" if g.n_iterations == 1 else "several-iterations"))
         self.note("gpa:%s" % ("converged" if g.converged else "not-converged"))
         if len(g.transforms) != len(sources):
@@ -626,6 +784,31 @@ class C08(Check):
             self.note("gpa:member-retargeted")
         return fails
 
+    def _gpa_refuse(self, st, kind):
+        from menpo.transform import GeneralizedProcrustesAnalysis
+
+        where = "gpa-refused:%s" % kind
+        srcs = st["sources"]
+        args = [srcs[0]] if kind == "single-shape" else list(srcs) + [st["odd"][kind]]
+        before = [observe(a) for a in args]
+        call = lambda: GeneralizedProcrustesAnalysis(args)  # noqa: E731
+        e1 = self._raises(call)
+        if e1 is None:
+            self.note("gpa-refused:%s:accepted" % kind)
+            return [Failure(where, "refused-call-raises", "GeneralizedProcrustesAnalysis accepted %d shapes of sizes %r" % (len(args), [a.points.shape for a in args]))]
+        self.note("gpa-refused:%s:%s" % (kind, type(e1).__name__))
+        fails = []
+        if kind == "single-shape" and not isinstance(e1, ValueError):
+            fails.append(Failure(where, "refused-call-raises", "expected the documented ValueError, got %s: %s" % (type(e1).__name__, e1)))
+        e2 = self._raises(call)
+        if e2 is None or not self._same_refusal(e1, e2):
+            fails.append(Failure(where, "retry-refused-the-same-way", "first %s: %s / retry %r" % (type(e1).__name__, e1, e2)))
+        for i, (a, b) in enumerate(zip(args, before)):
+            diff = obs_diff(b, observe(a))
+            if diff:
+                fails.append(Failure(where, "caller-objects-unchanged", "argument %d changed: %s" % (i, diff)))
+        return fails
+
     # ------------------------------------------------------------------ reporting
     def vacuity(self, notes, stats):
         need = [
@@ -653,6 +836,20 @@ class C08(Check):
             "bad:n-1:ValueError",
             "bad:dims:ValueError",
             "bad:samesize:ValueError",
+            "bad:apply-dims:ValueError",
+            "bad:apply-outside:TriangleContainmentError",
+            "bad:ctor-n+1:ValueError",
+            "bad:ctor-dims:ValueError",
+            "bad:ctor-3d:ValueError",
+            "refused-before-valid-op:n+1",
+            "refused-before-valid-op:dims",
+            "refused-before-valid-op:apply-dims",
+            "refused-before-valid-op:apply-outside",
+            "gpa-refused:single-shape:ValueError",
+            "gpa-refused:mixed-n-points:ValueError",
+            "gpa-refused:mixed-dims:ValueError",
+            "gpa:not-converged",
+            "gpa-unrelated-shapes:gave-up",
             "option-matters:AlignmentRotation:allow_mirror",
             "option-matters:AlignmentSimilarity:allow_mirror",
             "option-matters:AlignmentSimilarity:rotation",
@@ -686,8 +883,10 @@ class C08(Check):
             "gpa_roots": len([r for r in roots if r[0] == "G"]),
             "targets": len(TARGETS),
             "wrong_target_kinds": len(BAD_KINDS),
+            "other_refused_call_kinds": len(CALL_KINDS),
+            "gpa_refusal_kinds": len(GPA_REFUSALS),
             "max_live_objects": MAX_OBJS,
-            "ops_per_live_object": len(TARGETS) + len(BAD_KINDS) + 2,
+            "ops_per_live_object": len(TARGETS) + len(BAD_KINDS) + len(CALL_KINDS) + 2,
             "n_points_2d": list(self._sizes(2)),
             "n_points_3d": list(self._sizes(3)),
         }
@@ -700,6 +899,8 @@ class C08(Check):
             "aliasing between source / target / pool objects is not part of the canonical state: an operation that writes into a caller's object is reported by the caller-objects-unchanged clause at the step where it happens",
             "the fresh construction itself is the reference the property names; its optimality is C07's subject",
             "a wrong-sized target must be refused with ValueError (DESIGN.md C08) and leave every observation unchanged",
+            "refused calls explored: wrong-sized set_target (4 kinds), apply of the other dimensionality, apply outside the piecewise-affine domain, construction from the live source with a wrong-sized target / from 3-D data for 2-D-only classes, GPA of one shape / of shapes of different size or dimensionality; the alignment classes validate no option value (kernel, min_singular_val, rotation, allow_mirror are taken as given), so there is no invalid-option letter",
+            "the non-converging GPA shape set is the first of %d seeded candidate sets of unrelated shapes (min pairwise distance 0.3) on which the unchanged iteration gives up" % NOCONV_CANDIDATES,
             "GPA is run with target=None only (the property's clause); 2..4 shapes, three shape families",
         ]
 
